@@ -18,7 +18,9 @@ type CrawlOpts struct {
 	HQ          bool
 	Small       bool // keep runs short (stop/kill enumeration)
 	NoBadSeeds  bool
-	RateLimit   int // 0: sometimes, 1: always, -1: never
+	RateLimit   int  // 0: sometimes, 1: always, -1: never
+	BigBodies   bool // large spooled text bodies cut mid-transfer (C16)
+	ManyHosts   int  // extra seeds on distinct hosts that answer 429 (C16: limiter table bound)
 }
 
 // Expect values
@@ -117,6 +119,9 @@ func (c *crawlGen) asset(host, owner string, level int, maxRetry int, seencheck 
 	if !c.o.Faults && (kind == 9 || kind == 10) {
 		kind = 0
 	}
+	if c.o.BigBodies && c.Chance(1, 6) {
+		kind = 16
+	}
 	switch kind {
 	case 0, 1, 2: // plain ok image, various reference forms
 		ct, b := c.body("img")
@@ -176,8 +181,13 @@ func (c *crawlGen) asset(host, owner string, level int, maxRetry int, seencheck 
 		return `<img src="` + p + `">`
 	case 11: // invalid / unfetchable references (no site entry: must never reach the wire)
 		return c.Pick(`<img src="javascript:void(0)">`, `<img src="data:image/png;base64,AAAA">`, `<img src="http://nodot/x.png">`,
-			`<img src="mailto:a@b.example">`, `<img src="ftp://`+host+`/x.png">`, `<img src="http://localhost/x.png">`, `<img src="http://127.0.0.1/x.png">`,
+			`<img src="mailto:a@b.example">`, `<img src="ftp://`+host+`/x.png">`, `<img src="http://localhost/x.png">`, `<img src="http://127.0.0.1/x.png">`, `<img src="http://127.0.0.1:8080/x.png">`, `<script src="//127.0.0.1:9000/x.js"></script>`,
 			`<img src="http://archive.org/services/img/x.png">`, `<img src="">`)
+	case 16: // large text body (spooled to disk) whose transfer is cut after the sniff window, then served in full
+		p := "/bigtext/" + name + ".txt"
+		r := c.res(host, p, owner, level, Must, Response{Fault: "reset-body", Status: 200, Headers: H("Content-Type", "text/plain"), Body: Pad(4400000+c.N(400000), c.Uid())}, OK("text/plain", Pad(300, c.Uid()))) // the origin sends half of it (> 2 MiB, so already spooled to disk) and resets
+		r.Tags["faulty"] = "reset-body-big"
+		return `<link rel="prefetch" href="` + p + `">`
 	case 13: // asset that redirects to a fresh asset
 		p := "/moved/" + name + ".png"
 		tp := "/final/" + name + ".png"
@@ -324,9 +334,9 @@ func (c *crawlGen) seed(cfg *Cfg) []QRow {
 	case 6: // failing seed
 		p := "/" + c.Name("fail")
 		v := URL(host, p)
-		st := c.PickInt(404, 410, 500, 503, 403)
+		st := c.PickInt(404, 410, 500, 503, 403, 429, 429)
 		r := c.res(host, p, v, 0, Must, Status(st))
-		if st >= 500 {
+		if st >= 500 || st == 429 {
 			r.Tags["attempts"] = fmt.Sprint(cfg.MaxRetry + 1)
 		}
 		return []QRow{c.row(v)}
@@ -494,6 +504,13 @@ func GenCrawl(t *Tape, o CrawlOpts) *Scenario {
 			_ = k
 			break
 		}
+	}
+	for i := 0; i < o.ManyHosts; i++ {
+		h := c.Host()
+		p := "/" + c.Name("limited")
+		v := URL(h, p)
+		c.res(h, p, v, 0, Must, Status(c.PickInt(429, 403, 429, 408)))
+		g.Sc.Queue = append(g.Sc.Queue, c.row(v))
 	}
 	if o.HQ {
 		plan := &HQPlan{Faults: map[string][]string{}}
